@@ -224,6 +224,16 @@ func warm(x tensor.Tensor) {
 // products and concatenations with itself); results are dropped.
 func Warm(x tensor.Tensor) { warm(x) }
 
+// allFiniteNonNegZero: sums of the values with zeros reproduce them bit for bit.
+func allFiniteNonNegZero(v []float64) bool {
+	for _, x := range v {
+		if math.IsNaN(x) || math.IsInf(x, 0) || (x == 0 && math.Signbit(x)) {
+			return false
+		}
+	}
+	return true
+}
+
 func junk(n int) []float64 {
 	v := make([]float64, n)
 	for i := range v {
@@ -233,7 +243,7 @@ func junk(n int) []float64 {
 }
 
 // NViaModes is the number of provenance modes of NewVia.
-const NViaModes = 11
+const NViaModes = 14
 
 // ancestor is a tensor an operand was derived from, with the values it was built to hold.
 type ancestor struct {
@@ -288,6 +298,10 @@ func CheckAncestors() error {
 //     else Zeros / Ones / Full)    8 Slice out of the middle of the last dimension of a larger tensor
 //   9 element-wise product with Ones (result of an arithmetic operation)
 //   10 Concat along the last dimension of two pieces, the first a Slice of a larger tensor
+//   11 matrix product with the identity (finite values, rank >= 2): the result of a MatMul
+//   12 SumAlong(0) of the values under an extra leading dimension of size 1: a reduction result
+//   13 computed (Scale(1)) from a tensor that a back-propagation has passed through: until the
+//      final reset it is a result "computed from a spent tensor"
 // Every derived tensor is turned into a fresh leaf with the requested tracking at the end.
 // Modes that do not apply to the shape fall back to mode 2. The tensors the result was derived
 // from are remembered (CheckAncestors).
@@ -456,6 +470,34 @@ func NewVia(shape []int, v []float64, tracked bool, via int) (tensor.Tensor, err
 		x, err = tensor.Concat([]tensor.Tensor{a, b}, rank-1)
 		remember("the wider tensor whose slice was the first piece of the operand", wt, wide, wv)
 		remember("the second piece the operand was concatenated from", b, sb, bvals)
+	case via == 11 && rank >= 2 && allFiniteNonNegZero(v):
+		real, e := New(shape, v, false)
+		if e != nil {
+			return nil, e
+		}
+		eye, e := tensor.Eye(shape[rank-1], Conf(false))
+		if e != nil {
+			return nil, e
+		}
+		x, err = real.MatMul(eye)
+		remember("the tensor the operand was computed from", real, shape, v)
+	case via == 13:
+		spent, e := New(shape, v, true)
+		if e != nil {
+			return nil, e
+		}
+		if e := tensor.BackPropagate(spent.Scale(2)); e != nil {
+			return nil, e
+		}
+		x = spent.Scale(1)
+	case via == 12 && rank <= 5 && allFiniteNonNegZero(v):
+		up := append([]int{1}, shape...)
+		real, e := New(up, v, false)
+		if e != nil {
+			return nil, e
+		}
+		x, err = real.SumAlong(0)
+		remember("the tensor the operand was reduced from", real, up, v)
 	default:
 		x, err = New(shape, v, false)
 		if err == nil {
